@@ -8,7 +8,7 @@ import readmodel as rm
 
 PROP = "C19"
 MODEL_TARGETS = ["Corr/ReadShow.vo"]
-THEOREMS = ["C19_total", "C19_total_ok", "C19_read_total", "C19_unparsable_skipped", "C19_parsable_adds_one", "C19_junk_adds_at_most_one", "C19_genuine_subsequence", "C19_genuine_subsequence_flag", "C19_fields_frame", "C19_only_header_error", "C19_error_names_line", "C19_read_only_header_error", "C19_flag_irrelevant_when_clean", "C19_sect_append_frame", "C19_steering_lookup", "C19_steering_frame", "C19_data_reads_only", "C19_data_frame", "C19_read_ok", "C19_frame_meaning", "C19_parse_section_current"]
+THEOREMS = ["C19_total", "C19_total_ok", "C19_read_total", "C19_unparsable_skipped", "C19_parsable_adds_one", "C19_junk_adds_at_most_one", "C19_genuine_subsequence", "C19_genuine_subsequence_flag", "C19_fields_frame", "C19_only_header_error", "C19_error_names_line", "C19_read_only_header_error", "C19_flag_irrelevant_when_clean", "C19_sect_append_frame", "C19_steering_lookup", "C19_steering_frame", "C19_data_reads_only", "C19_data_frame", "C19_read_ok", "C19_frame_meaning", "C19_parse_section_current", "C19_parse_section_found_current"]
 ASSUMPTIONS = [
     "an exception raised from inside CPython's re (recursion/time limits on pathological lines) is not in the model; exercised by the very long lines only",
     "junk lines do not start with '~' and, when they parse, do not name VERS/WRAP/DLM/NULL (as the property states)",
